@@ -186,11 +186,16 @@ class HashTable:
         else:
             self._values.fill(value)
 
+    def _flat_values(self):
+        if isinstance(self._values, Number):
+            return np.full(self._keys.size, self._values, dtype=self._value_dtype)
+        return self._values.ravel()
+
     def items(self):
-        return zip(self._keys.ravel(), self._values.ravel())
+        return zip(self._keys.ravel(), self._flat_values())
 
     def to_dict(self):
-        return dict(zip(self._keys.ravel(), self._values.ravel()))
+        return dict(zip(self._keys.ravel(), self._flat_values()))
 
 
 @implements(np.zeros_like)
